@@ -202,6 +202,30 @@ def same_tracers(ctx):
                                     fp = [x for x in field_path(pl) if not x.startswith('@')]
                                     if fp:
                                         projs.add(fp[0])
+                if not src and not projs:
+                    # the same list filled by a loop: `for (_, P) in &msk.tsk.tracers { ps.push(P.clone()) }`
+                    from ..trans import chain_source, CHAIN_FLAGS
+                    root, _d = lib.resolve_copy(kb, op_local(op))
+                    pushes = [c for c in kb.calls(r'^std::vec::Vec::<[^>]*>::push$') if c.args and
+                              any(lib.resolve_copy(kb, s_[1])[0] == root if s_[0] == 'local' else False
+                                  for s_ in [('local', op_local(c.args[0]))]) or
+                              (c.args and is_place(c.args[0]) and any(d.kind == 'assign' and d.rv['k'] == 'ref' and d.rv['pl']['l'] == root
+                                                                       for d in kb.defs().get(op_local(c.args[0]), [])))]
+                    for c in pushes:
+                        for s_ in copy_chain_sources(kb, c.args[1], through_calls=(r'^std::clone::Clone::clone$',) + tuple(IDENTITY_CALLS)):
+                            if s_[0] == 'call' and s_[1].is_(r'^std::iter::Iterator::next$') and s_[1].args:
+                                fp_ = [x for x in s_[2] if not str(x).startswith('@') and x != '*']
+                                # the element is `(.0 of Some)`: drop the leading payload index
+                                if fp_[:1] == ['0']:
+                                    fp_ = fp_[1:]
+                                if fp_:
+                                    projs.add(str(fp_[0]))
+                                cs = chain_source(F, kb, s_[1].args[0])
+                                if cs is not None and not CHAIN_FLAGS[0]:
+                                    rr = [('param', cs[0], tuple(cs[1]))] if kb.is_param(cs[0]) else root_descr(kb, {'cp': {'l': cs[0], 'p': []}})
+                                    src = src or any(r[0] == 'param' and tuple(str(x) for x in r[2] if x != '*')[-2:] == ('tsk', 'tracers') for r in rr)
+                            else:
+                                projs.add('?')
                 ctx.check(src and projs == {'1'} and not sl.has_call(r'^std::iter::Iterator::(take|skip|filter|rev|step_by)$'), kb.key,
                           'usk.ps = msk.tsk.tracers.map(.1)', 'the tracing points embedded in a user key are not the public half (.1) of '
                           'every master tracer (source ok=%s, projection %s)' % (src, projs), 'same list, same projection as tpk()', kb.where(st['ln']))
